@@ -20,7 +20,7 @@ OUT = os.path.join(VERIF, 'seeded')
 SCRATCH = '/dev/shm'
 
 # which checks are expected to be relevant per property of the seed (the property's own check first)
-EXTRA = {'C01': ['C06'], 'C03': ['C01'], 'C04': ['C01', 'C10'], 'C05': ['C01', 'C03', 'C13'], 'C06': ['C01', 'C13'], 'C08': ['C17'], 'C10': ['C04'],
+EXTRA = {'C01': ['C06', 'C11', 'C03'], 'C03': ['C01'], 'C04': ['C01', 'C10'], 'C05': ['C01', 'C03', 'C13'], 'C06': ['C01', 'C13'], 'C08': ['C17'], 'C10': ['C04'],
          'C13': ['C01', 'C20'], 'C15': ['C02'], 'C16': ['C02', 'C15'], 'C02': ['C08', 'C12', 'C15'], 'C17': ['C08', 'C10'], 'C20': ['C13'], 'C11': ['C01'],
          'C14': ['C12'], 'C18': ['C19'], 'C19': ['C18']}
 
